@@ -9,3 +9,5 @@ import BalmProofs.Props.C15
 #print axioms Balm.Impl.judgeStrict_sound
 #print axioms Balm.Props.C04.expandBlock_inv
 #print axioms Balm.Props.C04.expandASeeds_inv
+#print axioms Balm.Impl.judgeTrueComplete_sound
+#print axioms Balm.Impl.judgeFalseHasStub_sound
